@@ -14,7 +14,7 @@ Definition ex_desc (assign_all : bool) : class_desc := {|
   cd_name := "Ex"; cd_from_ast := false; cd_members := ["_p"; "_r2"]; cd_mutable := []; cd_shared := [];
   cd_copy := Some [("_p", SrcMember "_p"); ("_r2", SrcMember "_r2")];
   cd_assign := Some (("_p", SrcMember "_p") :: if assign_all then [("_r2", SrcMember "_r2")] else []);
-  cd_reads := ["_p"; "_r2"]; cd_params := ["_p"; "_r2"]; cd_init := [("_p", InitParam); ("_r2", InitParam)]; cd_ctor_effects := [];
+  cd_reads := ["_p"; "_r2"]; cd_params := ["_p"; "_r2"]; cd_init := [("_p", InitParam); ("_r2", InitParam)]; cd_ctor_effects := []; cd_arg_shared := [];
   cd_copy_effects := []; cd_rc := None; cd_methods := [ex_mul] |}.
 
 Definition ex_pinit (p : nat) (st : string -> nat) : string -> nat :=
@@ -76,7 +76,7 @@ Definition sc_char : method_desc := {| m_name := "characteristic@1"; m_const := 
 Definition sc_desc (ctor_effects : list effect) : class_desc := {|
   cd_name := "StaticCtor"; cd_from_ast := false; cd_members := ["_p"]; cd_mutable := []; cd_shared := [];
   cd_copy := Some [("_p", SrcMember "_p")]; cd_assign := Some [("_p", SrcMember "_p")];
-  cd_reads := ["_p"]; cd_params := ["_p"]; cd_init := [("_p", InitParam)]; cd_ctor_effects := ctor_effects;
+  cd_reads := ["_p"]; cd_params := ["_p"]; cd_init := [("_p", InitParam)]; cd_ctor_effects := ctor_effects; cd_arg_shared := [];
   cd_copy_effects := []; cd_rc := None; cd_methods := [sc_char] |}.
 (* the static Zp holds 0 until the first construction initialises it with that construction's parameter; every construction
    reduces its own parameter "modulo Zp": it keeps the parameter of the FIRST construction *)
@@ -105,6 +105,40 @@ Proof.
   exists s2, 1, 7. do 2 eexists.
   split; [|split].
   - unfold s2, s1, sc_step, sc_reach. apply reach_step. apply reach_step. apply reach_init.
+  - reflexivity.
+  - cbn. discriminate.
+Qed.
+
+(* ---- a constructor that takes a LOGICAL copy of its argument (the shape of `_primes(inprimes, givNoCopy())` in RNSsystem(const domains&)):
+   the member shares storage with the caller's array; when the caller overwrites its array the object changes *)
+Definition as_desc (shared : list string) : class_desc := {|
+  cd_name := "ArgShared"; cd_from_ast := false; cd_members := ["_primes"]; cd_mutable := []; cd_shared := [];
+  cd_copy := Some [("_primes", SrcMember "_primes")]; cd_assign := Some [("_primes", SrcMember "_primes")];
+  cd_reads := ["_primes"]; cd_params := ["_primes"]; cd_init := [("_primes", InitParam)]; cd_ctor_effects := []; cd_arg_shared := shared;
+  cd_copy_effects := []; cd_rc := None;
+  cd_methods := [{| m_name := "Primes@1"; m_const := true; m_reads := ["_primes"]; m_effects := []; m_mutator := false; m_writes := [] |}] |}.
+Definition as_pinit (p : nat) (st : string -> nat) : string -> nat := fun x => if String.eqb x "_primes" then p else 0.
+Definition as_run (n : string) (s st : string -> nat) (a : unit) : nat := s "_primes".
+Definition as_d := as_desc ["_primes"].
+Definition as_step := step nat nat unit nat as_d as_pinit ex_zero ex_zero ex_ctor_stat ex_junk as_run ex_eff ex_eff.
+Definition as_reach := reach nat nat unit nat as_d as_pinit ex_zero ex_zero ex_ctor_stat ex_junk as_run ex_eff ex_eff.
+Definition as_init := init nat nat as_d as_pinit ex_zero ex_zero.
+
+Definition ArgShared_refuted_stmt : Prop :=
+  (forall md, In md (cd_methods as_d) -> method_sc_b as_d md = false) /\
+  (forall md, In md (cd_methods (as_desc [])) -> method_sc_b (as_desc []) md = true) /\
+  arg_shared_offenders as_d = ["_primes"] /\
+  exists σ o p c s, as_reach σ /\ objs nat nat σ o = Some ((p, c), s) /\
+    snd (as_step σ (Use nat nat unit o "Primes@1" tt)) <> Some (as_run "Primes@1" (as_init p c) (stat nat nat σ) tt).
+Lemma arg_shared_refuted : ArgShared_refuted_stmt.
+Proof.
+  split; [intros md [H|[]]; subst md; reflexivity|]. split; [intros md [H|[]]; subst md; reflexivity|]. split; [reflexivity|].
+  pose (s0 := Build_state nat nat (fun _ => None) (fun _ => 0)).
+  pose (s1 := fst (as_step s0 (Construct nat nat unit 0 101))).
+  pose (s2 := fst (as_step s1 (Outside nat nat unit 0 (fun _ => 211)))).      (* the caller writes 211 into its array *)
+  exists s2, 0, 101. do 2 eexists.
+  split; [|split].
+  - unfold s2, s1, as_step, as_reach. apply reach_step. apply reach_step. apply reach_init.
   - reflexivity.
   - cbn. discriminate.
 Qed.
